@@ -192,6 +192,7 @@ class Delivery:
         self.hang = False
         self.hook_calls = 0
         self.hook_dirty = False
+        self.leftover = 0  # resolver coroutines still in flight when the response was complete
 
 
 def run_incremental(doc_i, root, flags, bits, list_kind, early, lazy, choices, stop_after=None, abort_at=None, abort_reason=None, source_fail_at=None):
@@ -235,6 +236,8 @@ def run_incremental(doc_i, root, flags, bits, list_kind, early, lazy, choices, s
                 return d, loop, sched, world
             if isinstance(res, ExecutionResult):
                 d.single = res
+                loop.run_until_idle()
+                d.leftover = len(world.inflight)
                 sched.drain()
                 return d, loop, sched, world
             d.initial = res.initial_result
@@ -254,6 +257,10 @@ def run_incremental(doc_i, root, flags, bits, list_kind, early, lazy, choices, s
                 if len(d.payloads) > 40:
                     d.error = RuntimeError("too many payloads")
                     break
+            # the response is complete (or the consumer stopped): without any further external
+            # event, nothing the execution started may still be in flight
+            loop.run_until_idle()
+            d.leftover = len(world.inflight)
             sched.drain()
         except Hang:
             d.hang = True
